@@ -9,6 +9,8 @@ import (
 // further tables are added here as the properties that need them are built
 func extraTables(v *bytes.Buffer, repo string, kmd *pkgFiles) {
 	writeTable(v, "raw_html_sinks", "(function, class, expression) of every conversion to template.HTML in cmd/keymasterd; class: escaped | base64 | literal | raw", 3, rawHTMLSinks(kmd))
+	c20Tables(v, repo, kmd)
+	c19Tables(v, repo, kmd)
 }
 
 // ------------------------------------------------------------------ C18 raw HTML sinks
